@@ -198,6 +198,21 @@ func main() {
 			}
 		}
 	}
+	// big keystores: more than 256 keys on a branch (indices and counters past one byte), judged at the final restart only
+	for b := 0; b < run.N(3, 30); b++ {
+		rng := root.Derive("big", b)
+		ops := []wl.Op{{Kind: "create", PC: "cur", SeedKind: "fresh", Remark: "big"}}
+		if rng.Bool() {
+			ops = append(ops, wl.Op{Kind: "unlock", PC: "cur"})
+		}
+		ops = append(ops, wl.Op{Kind: "next", N: 250 + rng.Intn(60), Internal: rng.Bool(), K: 0}, wl.Op{Kind: "genpub"}, wl.Op{Kind: "next", N: rng.Range(1, 8), Internal: rng.Bool(), K: 0})
+		if rng.Bool() {
+			ops = append(ops, wl.Op{Kind: "chpriv", PC: "cur", NPC: "fresh"})
+		}
+		histOps = append(histOps, ops)
+		jobs = append(jobs, job{len(histOps) - 1, len(ops), ci})
+		ci++
+	}
 	vh.Parallel(len(jobs), 16, func(j int) {
 		jb := jobs[j]
 		if !run.Want(jb.ci) {
